@@ -1,4 +1,7 @@
-"""Parallel driver: run verification units in a process pool and collect plain-data results."""
+"""Parallel driver: run verification units in separate processes (one fresh process per job, at most N at a time)
+and collect plain-data results.  Each job has a hard wall-clock limit: a solver call that does not come back (it
+happened once inside z3's Diophantine handler, which ignored both rlimit and the timeout) is killed and the unit is
+reported as a checker error, never as a verdict."""
 import multiprocessing as mp
 import os
 import sys
@@ -41,6 +44,21 @@ def _run(job):
                 'obligations': [], 'errors': ['crash'], 'notes': []}
 
 
+def _child(job, conn):
+    try:
+        r = _run(job)
+        r.pop('_obs', None)
+        conn.send(r)
+    except BaseException as e:                                 # noqa: BLE001
+        try:
+            conn.send({'target': job[1][0] if job[1] else '?', 'enum': job[1][1] if len(job[1]) > 1 else None,
+                       'crash': 'worker failed: %r' % (e,), 'traceback': '', 'obligations': [], 'errors': ['crash'], 'notes': []})
+        except Exception:
+            pass
+    finally:
+        conn.close()
+
+
 def run_units(units, opts=None, nproc=None, verbose=False, extra_jobs=None):
     """units: list of (target, enum_assign).  Returns list of result dicts (same order;
     results of extra_jobs follow)."""
@@ -50,15 +68,58 @@ def run_units(units, opts=None, nproc=None, verbose=False, extra_jobs=None):
     nproc = nproc or min(max(len(jobs), 1), int(os.environ.get('PYVC_NPROC', os.cpu_count() or 4)))
     if nproc <= 1 or len(jobs) == 1:
         return [_run(j) for j in jobs]
+    hard = float(os.environ.get('PYVC_HARD_LIMIT_S', '5400'))
     ctx = mp.get_context('fork')
-    with ctx.Pool(nproc, maxtasksperchild=1) as pool:
-        res = []
-        for i, r in enumerate(pool.imap(_run, jobs, chunksize=1)):
-            if verbose:
-                n = len(r.get('obligations', []))
-                bad = [o for o in r.get('obligations', []) if o.get('status') != 'proved']
-                print('  [%d/%d] %s %s: %d obligations, %d not proved, %.1fs %s' % (
-                    i + 1, len(jobs), r.get('target'), r.get('enum'), n, len(bad), r.get('wall_s', 0),
-                    r.get('crash', '')), file=sys.stderr, flush=True)
-            res.append(r)
-        return res
+    results = [None] * len(jobs)
+    running = {}            # index -> (process, parent_conn, start time)
+    nxt = 0
+    done = 0
+    while done < len(jobs):
+        while nxt < len(jobs) and len(running) < nproc:
+            pc, cc = ctx.Pipe(duplex=False)
+            p = ctx.Process(target=_child, args=(jobs[nxt], cc))
+            p.start()
+            cc.close()
+            running[nxt] = (p, pc, time.time())
+            nxt += 1
+        progressed = False
+        for i in list(running):
+            p, pc, t0 = running[i]
+            r = None
+            if pc.poll():
+                try:
+                    r = pc.recv()
+                except EOFError:
+                    r = None
+                p.join(10)
+                if r is None:
+                    r = _dead(jobs[i], 'worker exited without a result (exit code %s)' % p.exitcode)
+            elif not p.is_alive():
+                p.join(1)
+                r = _dead(jobs[i], 'worker died (exit code %s)' % p.exitcode)
+            elif time.time() - t0 > hard:
+                p.kill()
+                p.join(5)
+                r = _dead(jobs[i], 'hard wall-clock limit of %d s exceeded (solver call did not return); killed' % hard)
+            if r is not None:
+                results[i] = r
+                del running[i]
+                pc.close()
+                done += 1
+                progressed = True
+                if verbose:
+                    n = len(r.get('obligations', []))
+                    bad = [o for o in r.get('obligations', []) if o.get('status') != 'proved']
+                    print('  [%d/%d] %s %s: %d obligations, %d not proved, %.1fs %s' % (
+                        done, len(jobs), r.get('target'), r.get('enum'), n, len(bad), r.get('wall_s', 0),
+                        r.get('crash', '')), file=sys.stderr, flush=True)
+        if not progressed:
+            time.sleep(0.05)
+    return results
+
+
+def _dead(job, why):
+    payload = job[1]
+    return {'target': payload[0] if payload else '?', 'enum': payload[1] if len(payload) > 1 and job[0] == 'unit' else None,
+            'crash': why, 'traceback': '', 'obligations': [], 'errors': ['crash'], 'notes': [],
+            'kind': 'unit' if job[0] == 'unit' else 'crashed-bounded'}
